@@ -5,7 +5,8 @@
 //! A *spelling* `{t, w}` names node `t` through wrapper `w`:
 //!   0 `Node<t>`  1 `Box<Node<t>>`  2 `&'static Node<t>`  3 `Rc<Node<t>>`  4 `Arc<Node<t>>`
 //!   5 `&'static mut Node<t>`  6 `PhantomData<Node<t>>` (identity: the shared phantom identity)
-//!   7 `Box<Rc<Node<t>>>`  8 `&'static Box<Node<t>>`  (wrappers of wrappers)
+//!   7 `Box<Rc<Node<t>>>`  8 `&'static Box<Node<t>>`  9 `Arc<Box<_>>`  10 `Rc<&_>`  11 `&mut Arc<_>`  12 `Box<&mut Rc<_>>`
+//!   (wrappers of wrappers, each wrapper kind outermost at least once)
 use scale_info::{
     form::MetaForm, meta_type, Field, MetaType, Path, Type, TypeDef, TypeDefArray,
     TypeDefBitSequence, TypeDefCompact, TypeDefComposite, TypeDefSequence, TypeDefTuple,
@@ -61,6 +62,10 @@ macro_rules! table {
                     ($i, 6) => meta_type::<PhantomData<Node<$i>>>(),
                     ($i, 7) => meta_type::<Box<Rc<Node<$i>>>>(),
                     ($i, 8) => meta_type::<&'static Box<Node<$i>>>(),
+                    ($i, 9) => meta_type::<Arc<Box<Node<$i>>>>(),
+                    ($i, 10) => meta_type::<Rc<&'static Node<$i>>>(),
+                    ($i, 11) => meta_type::<&'static mut Arc<Node<$i>>>(),
+                    ($i, 12) => meta_type::<Box<&'static mut Rc<Node<$i>>>>(),
                 )*
                 _ => panic!("no spelling ({t},{w})"),
             }
